@@ -1,7 +1,742 @@
 package p
 
-import "pgregory.net/rapid"
+// convsim harness, fault configuration (C06): corruption faults injected into healthy stored
+// objects (CopyFrom) and into the attribute types of the target (CopyTo). Single faults are
+// enumerated exhaustively on every drawn object; fault sets of 2-5 are drawn with rapid.
+
+import (
+	"fmt"
+	"reflect"
+	"regexp"
+	"sort"
+	"strings"
+
+	"github.com/hashicorp/terraform-plugin-framework/attr"
+	"github.com/hashicorp/terraform-plugin-framework/diag"
+	"github.com/hashicorp/terraform-plugin-framework/types"
+	"pgregory.net/rapid"
+
+	"scratch/spec"
+)
+
+type step struct {
+	attr string // object attribute
+	idx  int    // list index (when list)
+	key  string // map key (when mp)
+	list bool
+	mp   bool
+}
+
+func (s step) String() string {
+	switch {
+	case s.list:
+		return fmt.Sprintf("[%d]", s.idx)
+	case s.mp:
+		return "[" + s.key + "]"
+	}
+	return "." + s.attr
+}
+
+func pathString(p []step) string {
+	var b strings.Builder
+	for _, s := range p {
+		b.WriteString(s.String())
+	}
+	return b.String()
+}
+
+// fault kinds on stored objects
+const (
+	fDelete    = "delete-attribute"
+	fWrongType = "wrong-typed-value"
+	fNilIface  = "nil-interface-value"
+	fNilAttrs  = "nil-attrs-container"
+	fNilElems  = "nil-elems-container"
+	fTypeGone  = "attr-type-removed"
+)
+
+type fault struct {
+	kind string
+	path []step // path of the container (for container kinds) or of the value (for value kinds)
+	// oracle side
+	expect []expDiag   // diagnostics this fault must produce
+	entry  *spec.Entry // top-most entry the fault sits under at each level is derived from path
+}
+
+type expDiag struct {
+	path       string // documented field path
+	suffixOnly bool   // under an embedded message only the last component is checked
+	conversion bool
+}
+
+// enumerate the fault sites of a healthy object seen through node n.
+func objectFaults(n *spec.Node, o types.Object, path []step, injected map[string]bool, out *[]fault) {
+	if o.Null || o.Unknown {
+		return
+	}
+	entryDiag := func(e *spec.Entry, conv bool) []expDiag {
+		if e == nil || e.Placeholder {
+			return nil
+		}
+		return []expDiag{{path: e.Path, suffixOnly: e.UnderEmbed, conversion: conv}}
+	}
+	// container fault: nil Attrs -> every proto attribute of this level is missing
+	if len(n.Msg.Fields) > 0 {
+		var exp []expDiag
+		for _, e := range n.Entries {
+			exp = append(exp, entryDiag(e, false)...)
+		}
+		*out = append(*out, fault{kind: fNilAttrs, path: path, expect: exp})
+	}
+	names := make([]string, 0, len(o.Attrs))
+	for k := range o.Attrs {
+		names = append(names, k)
+	}
+	sort.Strings(names)
+	for _, name := range names {
+		v := o.Attrs[name]
+		e := n.ByAttr(name)
+		p := append(append([]step{}, path...), step{attr: name})
+		if e == nil {
+			if injected[name] {
+				// attributes the converters never touch: corrupting them must go unnoticed
+				*out = append(*out, fault{kind: fDelete, path: p}, fault{kind: fNilIface, path: p})
+			}
+			continue
+		}
+		if e.Placeholder {
+			// the placeholder of an empty message is never read
+			*out = append(*out, fault{kind: fDelete, path: p}, fault{kind: fWrongType, path: p})
+			continue
+		}
+		*out = append(*out,
+			fault{kind: fDelete, path: p, expect: entryDiag(e, false), entry: e},
+			fault{kind: fWrongType, path: p, expect: entryDiag(e, true), entry: e},
+			fault{kind: fNilIface, path: p, expect: entryDiag(e, true), entry: e})
+		switch x := v.(type) {
+		case types.Object:
+			if e.Child != nil {
+				objectFaults(e.Child, x, p, nil, out)
+			}
+		case types.List:
+			if x.Null || x.Unknown {
+				continue
+			}
+			*out = append(*out, fault{kind: fNilElems, path: p, entry: e})
+			for i, el := range x.Elems {
+				ep := append(append([]step{}, p...), step{list: true, idx: i})
+				*out = append(*out, fault{kind: fWrongType, path: ep, expect: entryDiag(e, true), entry: e},
+					fault{kind: fNilIface, path: ep, expect: entryDiag(e, true), entry: e})
+				if eo, ok := el.(types.Object); ok && e.Child != nil {
+					objectFaults(e.Child, eo, ep, nil, out)
+				}
+			}
+		case types.Map:
+			if x.Null || x.Unknown {
+				continue
+			}
+			*out = append(*out, fault{kind: fNilElems, path: p, entry: e})
+			keys := make([]string, 0, len(x.Elems))
+			for k := range x.Elems {
+				keys = append(keys, k)
+			}
+			sort.Strings(keys)
+			for _, k := range keys {
+				ep := append(append([]step{}, p...), step{mp: true, key: k})
+				*out = append(*out, fault{kind: fWrongType, path: ep, expect: entryDiag(e, true), entry: e},
+					fault{kind: fNilIface, path: ep, expect: entryDiag(e, true), entry: e})
+				if eo, ok := x.Elems[k].(types.Object); ok && e.Child != nil {
+					objectFaults(e.Child, eo, ep, nil, out)
+				}
+			}
+		}
+	}
+}
+
+func wrongTyped(v attr.Value) attr.Value {
+	if _, ok := v.(types.String); ok {
+		return types.Bool{Value: true}
+	}
+	return types.String{Value: "wrong"}
+}
+
+// applyFault returns a copy of v with the fault applied at path.
+func applyFault(v attr.Value, path []step, kind string) attr.Value {
+	if len(path) == 0 {
+		switch kind {
+		case fNilAttrs:
+			o := v.(types.Object)
+			o.Attrs = nil
+			return o
+		case fNilElems:
+			switch x := v.(type) {
+			case types.List:
+				x.Elems = nil
+				return x
+			case types.Map:
+				x.Elems = nil
+				return x
+			}
+		case fWrongType:
+			return wrongTyped(v)
+		case fNilIface:
+			return nil
+		}
+		panic("harness: applyFault kind " + kind)
+	}
+	s := path[0]
+	switch x := v.(type) {
+	case types.Object:
+		c := x
+		c.Attrs = make(map[string]attr.Value, len(x.Attrs))
+		for k, a := range x.Attrs {
+			c.Attrs[k] = a
+		}
+		if len(path) == 1 && kind == fDelete {
+			delete(c.Attrs, s.attr)
+			return c
+		}
+		c.Attrs[s.attr] = applyFault(x.Attrs[s.attr], path[1:], kind)
+		return c
+	case types.List:
+		c := x
+		c.Elems = append([]attr.Value{}, x.Elems...)
+		c.Elems[s.idx] = applyFault(x.Elems[s.idx], path[1:], kind)
+		return c
+	case types.Map:
+		c := x
+		c.Elems = make(map[string]attr.Value, len(x.Elems))
+		for k, a := range x.Elems {
+			c.Elems[k] = a
+		}
+		c.Elems[s.key] = applyFault(x.Elems[s.key], path[1:], kind)
+		return c
+	}
+	panic(fmt.Sprintf("harness: applyFault through %T", v))
+}
+
+func isPrefix(a, b []step) bool {
+	if len(a) > len(b) {
+		return false
+	}
+	for i := range a {
+		if a[i] != b[i] {
+			return false
+		}
+	}
+	return true
+}
+
+var pathTokenCache = map[string]*regexp.Regexp{}
+
+func namesPath(detail, path string, suffixOnly bool) bool {
+	key := path
+	if suffixOnly {
+		if i := strings.LastIndex(path, "."); i >= 0 {
+			key = "~" + path[i:]
+		}
+	}
+	re, ok := pathTokenCache[key]
+	if !ok {
+		if suffixOnly {
+			re = regexp.MustCompile(`[A-Za-z0-9_.]` + regexp.QuoteMeta(key[1:]) + `([^A-Za-z0-9_.]|$)`)
+		} else {
+			re = regexp.MustCompile(`(^|[^A-Za-z0-9_.])` + regexp.QuoteMeta(path) + `([^A-Za-z0-9_.]|$)`)
+		}
+		pathTokenCache[key] = re
+	}
+	return re.MatchString(detail)
+}
+
+// checkDiags: every expected diagnostic is present exactly once, and nothing else is reported.
+func checkDiags(t *rapid.T, prop, dir string, fs []fault, ds diag.Diagnostics, h *history, what string) {
+	var errs []string
+	for _, d := range ds {
+		if d.Severity() == diag.SeverityError {
+			errs = append(errs, d.Summary()+": "+d.Detail())
+		}
+	}
+	// expected set: per documented field path between one diagnostic and one per distinct fault class
+	// (identical diagnostics are merged by the framework's Append; a missing and a conversion
+	// diagnostic for the same field in two list elements are two diagnostics)
+	type want struct {
+		e     expDiag
+		kinds map[bool]bool
+		kind  string
+	}
+	wants := map[string]*want{}
+	for _, f := range fs {
+		for _, e := range f.expect {
+			w := wants[e.path]
+			if w == nil {
+				w = &want{e: e, kinds: map[bool]bool{}, kind: f.kind}
+				wants[e.path] = w
+			}
+			w.kinds[e.conversion] = true
+		}
+	}
+	used := make([]bool, len(errs))
+	keys := make([]string, 0, len(wants))
+	for k := range wants {
+		keys = append(keys, k)
+	}
+	sort.Strings(keys)
+	for _, k := range keys {
+		w := wants[k]
+		n := 0
+		for i, s := range errs {
+			if !used[i] && namesPath(s, w.e.path, w.e.suffixOnly) {
+				used[i] = true
+				n++
+			}
+		}
+		if n < 1 || n > len(w.kinds) {
+			violate(t, prop+"/"+dir+"/one-diagnostic-per-fault/"+w.kind, "%s: expected exactly one error diagnostic naming %s, got %d\nall error diagnostics: %v\nfaults: %s\nhistory: %s",
+				what, w.e.path, n, errs, describeFaults(fs), strings.Join(h.lines, " ; "))
+		}
+	}
+	for i, s := range errs {
+		if !used[i] {
+			violate(t, prop+"/"+dir+"/no-spurious-diagnostic", "%s: unexpected error diagnostic %q\nfaults: %s\nhistory: %s", what, s, describeFaults(fs), strings.Join(h.lines, " ; "))
+		}
+	}
+}
+
+func describeFaults(fs []fault) string {
+	var ss []string
+	for _, f := range fs {
+		ss = append(ss, f.kind+"@"+pathString(f.path))
+	}
+	return strings.Join(ss, ", ")
+}
+
+// compareUnfaulted: every field whose attribute subtree carries no fault equals the twin's.
+func compareUnfaulted(t *rapid.T, n *spec.Node, got, twin map[string]interface{}, at []step, fs []fault, h *history) {
+	// the branches of one oneof group share one field: a fault on any branch taints the group
+	groupOf := func(e *spec.Entry) string { return e.F.Oneof + "|" + e.Decl.Name + "|" + viaKey(e.Via) }
+	tainted := map[string]bool{}
+	for _, e := range n.Entries {
+		if e.Placeholder || e.F.Oneof == "" {
+			continue
+		}
+		p := append(append([]step{}, at...), step{attr: e.Attr})
+		for _, f := range fs {
+			if isPrefix(f.path, p) || isPrefix(p, f.path) {
+				tainted[groupOf(e)] = true
+			}
+		}
+	}
+	for _, e := range n.Entries {
+		if e.Placeholder {
+			continue
+		}
+		if e.F.Oneof != "" && tainted[groupOf(e)] {
+			continue
+		}
+		p := append(append([]step{}, at...), step{attr: e.Attr})
+		above, below := false, false
+		for _, f := range fs {
+			if isPrefix(f.path, p) {
+				above = true // the fault sits on this attribute or on a container above it
+			} else if isPrefix(p, f.path) {
+				below = true
+			}
+		}
+		if above {
+			continue // the faulted attribute itself: unspecified
+		}
+		if !below {
+			if d := nfDiff(got[e.Attr], twin[e.Attr], pathString(p)); d != "" {
+				violate(t, "C06/copy-from/well-formed-still-copied/"+entryClass(e, false, 0), "field without a fault differs from the unfaulted twin: %s\nfaults: %s\nhistory: %s",
+					d, describeFaults(fs), strings.Join(h.lines, " ; "))
+			}
+			continue
+		}
+		if e.Child == nil || e.F.Card != "" {
+			continue // a collection holding the fault: unspecified
+		}
+		gs, ok1 := got[e.Attr].(map[string]interface{})
+		ts, ok2 := twin[e.Attr].(map[string]interface{})
+		if ok1 && ok2 {
+			compareUnfaulted(t, e.Child, gs, ts, p, fs, h)
+		}
+	}
+}
+
+// --- CopyTo: attribute types removed at object levels
+
+type typeFault struct {
+	path   []step // attribute names from the root type; list/map element levels are implicit
+	expect expDiag
+}
+
+func cloneType(t attr.Type) attr.Type {
+	switch x := t.(type) {
+	case types.ObjectType:
+		c := types.ObjectType{AttrTypes: make(map[string]attr.Type, len(x.AttrTypes))}
+		for k, a := range x.AttrTypes {
+			c.AttrTypes[k] = cloneType(a)
+		}
+		return c
+	case types.ListType:
+		return types.ListType{ElemType: cloneType(x.ElemType)}
+	case types.MapType:
+		return types.MapType{ElemType: cloneType(x.ElemType)}
+	}
+	return t
+}
+
+func objLevel(t attr.Type) (types.ObjectType, bool) {
+	switch x := t.(type) {
+	case types.ObjectType:
+		return x, true
+	case types.ListType:
+		o, ok := x.ElemType.(types.ObjectType)
+		return o, ok
+	case types.MapType:
+		o, ok := x.ElemType.(types.ObjectType)
+		return o, ok
+	}
+	return types.ObjectType{}, false
+}
+
+// removeType deletes the attribute type named by path from (a clone of) the type tree.
+func removeType(root types.ObjectType, path []step) {
+	cur := root
+	for i, s := range path {
+		if i == len(path)-1 {
+			delete(cur.AttrTypes, s.attr)
+			return
+		}
+		next, ok := objLevel(cur.AttrTypes[s.attr])
+		if !ok {
+			panic("harness: removeType through non-object")
+		}
+		cur = next
+	}
+}
+
+// typeFaults enumerates removable attribute types reached by source value src.
+func typeFaults(n *spec.Node, src reflect.Value, path []step, out *[]typeFault) {
+	for _, e := range n.Entries {
+		if e.Placeholder {
+			continue
+		}
+		p := append(append([]step{}, path...), step{attr: e.Attr})
+		*out = append(*out, typeFault{path: p, expect: expDiag{path: e.Path, suffixOnly: e.UnderEmbed}})
+		if e.Child == nil || len(e.Child.Msg.Fields) == 0 {
+			continue
+		}
+		hd := holderOf(src, e.Via, false)
+		if !hd.IsValid() {
+			continue
+		}
+		var fv reflect.Value
+		if e.F.Oneof != "" {
+			hf := hd.FieldByName(spec.CamelCase(e.F.Oneof))
+			if hf.IsNil() || hf.Elem().Type() != oneofWrapper(hd, e.Go) {
+				continue
+			}
+			fv = hf.Elem().Elem().Field(0)
+		} else {
+			fv = hd.FieldByName(e.Go)
+		}
+		// the nested level is reached only through a value
+		switch e.F.Card {
+		case spec.CardList:
+			for i := 0; i < fv.Len(); i++ {
+				if ev := indirect(fv.Index(i)); ev.IsValid() {
+					typeFaults(e.Child, addressable(ev), p, out)
+				}
+			}
+		case spec.CardMap:
+			it := fv.MapRange()
+			for it.Next() {
+				if ev := indirect(it.Value()); ev.IsValid() {
+					typeFaults(e.Child, addressable(ev), p, out)
+				}
+			}
+		default:
+			if ev := indirect(fv); ev.IsValid() {
+				typeFaults(e.Child, addressable(ev), p, out)
+			}
+		}
+	}
+}
+
+func addressable(v reflect.Value) reflect.Value {
+	if v.CanAddr() {
+		return v
+	}
+	c := reflect.New(v.Type()).Elem()
+	c.Set(v)
+	return c
+}
+
+// looseTree renders an attribute value structurally (for twin comparison).
+func looseTree(v attr.Value) interface{} {
+	switch x := v.(type) {
+	case nil:
+		return "<nil>"
+	case types.Object:
+		if x.Unknown {
+			return "?"
+		}
+		if x.Null {
+			return "null"
+		}
+		m := map[string]interface{}{}
+		for k, a := range x.Attrs {
+			m[k] = looseTree(a)
+		}
+		return m
+	case types.List:
+		if x.Unknown {
+			return "?"
+		}
+		if x.Null {
+			return "null"
+		}
+		l := make([]interface{}, len(x.Elems))
+		for i, a := range x.Elems {
+			l[i] = looseTree(a)
+		}
+		return l
+	case types.Map:
+		if x.Unknown {
+			return "?"
+		}
+		if x.Null {
+			return "null"
+		}
+		m := looseMap{}
+		for k, a := range x.Elems {
+			m[k] = looseTree(a)
+		}
+		return m
+	}
+	tv, err := v.ToTerraformValue(ctx)
+	if err != nil {
+		return "error:" + err.Error()
+	}
+	return tfString(tv)
+}
+
+// looseMap marks map elements (they do not add a level to type paths).
+type looseMap map[string]interface{}
+
+// compareWritten: attributes without a removed type equal the twin's.
+func compareWritten(t *rapid.T, got, twin interface{}, at string, removed map[string]bool, fs []typeFault, h *history) {
+	gm, ok1 := got.(map[string]interface{})
+	tm, ok2 := twin.(map[string]interface{})
+	if ok1 && ok2 {
+		keys := map[string]bool{}
+		for k := range gm {
+			keys[k] = true
+		}
+		for k := range tm {
+			keys[k] = true
+		}
+		ks := make([]string, 0, len(keys))
+		for k := range keys {
+			ks = append(ks, k)
+		}
+		sort.Strings(ks)
+		for _, k := range ks {
+			p := at + "." + k
+			if removed[p] {
+				continue
+			}
+			compareWritten(t, gm[k], tm[k], p, removed, fs, h)
+		}
+		return
+	}
+	gmm, ok1 := got.(looseMap)
+	tmm, ok2 := twin.(looseMap)
+	if ok1 && ok2 && len(gmm) == len(tmm) {
+		ks := make([]string, 0, len(gmm))
+		for k := range gmm {
+			ks = append(ks, k)
+		}
+		sort.Strings(ks)
+		for _, k := range ks {
+			compareWritten(t, gmm[k], tmm[k], at, removed, fs, h)
+		}
+		return
+	}
+	gl, ok1 := got.([]interface{})
+	tl, ok2 := twin.([]interface{})
+	if ok1 && ok2 && len(gl) == len(tl) {
+		for i := range gl {
+			compareWritten(t, gl[i], tl[i], at, removed, fs, h) // element levels are implicit in type paths
+		}
+		return
+	}
+	if !reflect.DeepEqual(got, twin) {
+		violate(t, "C06/copy-to/others-still-written", "attribute %s differs from the unfaulted twin: %v vs %v\nremoved types: %v\nhistory: %s",
+			at, brief(got), brief(twin), removedList(fs), strings.Join(h.lines, " ; "))
+	}
+}
+
+func removedList(fs []typeFault) []string {
+	var r []string
+	for _, f := range fs {
+		r = append(r, pathString(f.path))
+	}
+	return r
+}
+
+func typePathKey(p []step) string {
+	var b strings.Builder
+	for _, s := range p {
+		b.WriteString("." + s.attr)
+	}
+	return b.String()
+}
 
 func propC06(re *rootEnv) func(*rapid.T) {
-	return func(t *rapid.T) { t.Skip("not built yet") }
+	return func(t *rapid.T) {
+		h := &history{root: re.name}
+		defer h.finish()
+		if rapid.IntRange(0, 2).Draw(t, "dir") != 0 {
+			c06From(t, re, h)
+		} else {
+			c06To(t, re, h)
+		}
+	}
+}
+
+func c06From(t *rapid.T, re *rootEnv, h *history) {
+	// a healthy object: any object reachable in a fault-free history
+	var X types.Object
+	switch rapid.IntRange(0, 2).Draw(t, "healthy") {
+	case 0: // in-place written, not restarted
+		X = re.emptyObject()
+		re.copyTo(t, "C06", genStruct(t, re, "w0"), &X, h)
+		if coin(t, 1, 2, "second") {
+			re.copyTo(t, "C06", genStruct(t, re, "w1"), &X, h)
+		}
+		h.add("Healthy", "written in place")
+	default:
+		var kind string
+		X, kind = re.drawSource(t, "C06", "x", h)
+		h.add("Healthy", kind)
+	}
+	twin := re.fn.New()
+	var twinErrs []string
+	if p := safely(func() { twinErrs = errorDiags(re.fn.From(ctx, X, twin)) }); p != "" || len(twinErrs) > 0 {
+		return // the unfaulted read itself misbehaves: C05's business, nothing to compare against
+	}
+	twinNF := re.nf(twin)
+	var sites []fault
+	objectFaults(re.view, X, nil, re.injected, &sites)
+	run := func(fs []fault, what string) {
+		Xf := attr.Value(cloneObject(X))
+		for _, f := range fs {
+			Xf = applyFault(Xf, f.path, f.kind)
+			st.fault(f.kind)
+		}
+		S := re.fn.New()
+		var ds diag.Diagnostics
+		if p := safely(func() { ds = re.fn.From(ctx, Xf.(types.Object), S) }); p != "" {
+			violate(t, "C06/copy-from/no-panic/"+fs[0].kind, "CopyFrom panicked: %s\nfaults: %s\nhistory: %s", p, describeFaults(fs), strings.Join(h.lines, " ; "))
+		}
+		checkDiags(t, "C06", "copy-from", fs, ds, h, what)
+		compareUnfaulted(t, re.view, re.nf(S), twinNF, nil, fs, h)
+	}
+	if rapid.IntRange(0, 1).Draw(t, "mode") == 0 {
+		h.add("CorruptEach", fmt.Sprintf("%d single faults", len(sites)))
+		for _, f := range sites {
+			run([]fault{f}, "single fault")
+		}
+		st.probe("exhaustive-single-fault-objects")
+		return
+	}
+	if len(sites) == 0 {
+		return
+	}
+	k := rapid.IntRange(2, 5).Draw(t, "nfaults")
+	var fs []fault
+	for i := 0; i < k; i++ {
+		f := sites[rapid.IntRange(0, len(sites)-1).Draw(t, fmt.Sprintf("site%d", i))]
+		clash := false
+		for _, g := range fs {
+			if isPrefix(g.path, f.path) || isPrefix(f.path, g.path) {
+				clash = true // faults on one path shadow each other: keep sets independent
+			}
+		}
+		if !clash {
+			fs = append(fs, f)
+		}
+	}
+	h.add("CorruptSet", describeFaults(fs))
+	run(fs, "fault set")
+}
+
+func c06To(t *rapid.T, re *rootEnv, h *history) {
+	src := genStruct(t, re, "src")
+	h.add("Source", describeStruct(re, src))
+	twinO := re.emptyObject()
+	var twinErrs []string
+	if p := safely(func() { twinErrs = errorDiags(re.fn.To(ctx, src, &twinO)) }); p != "" || len(twinErrs) > 0 {
+		return
+	}
+	twinTree := looseTree(twinO)
+	var sites []typeFault
+	typeFaults(re.view, reflect.ValueOf(src).Elem(), nil, &sites)
+	// the same attribute type is reached through several elements: one site per type path
+	uniq := map[string]typeFault{}
+	for _, s := range sites {
+		uniq[typePathKey(s.path)] = s
+	}
+	keys := make([]string, 0, len(uniq))
+	for k := range uniq {
+		keys = append(keys, k)
+	}
+	sort.Strings(keys)
+	run := func(fs []typeFault, what string) {
+		typ := cloneType(re.objType).(types.ObjectType)
+		removed := map[string]bool{}
+		var ffs []fault
+		for _, f := range fs {
+			removeType(typ, f.path)
+			removed[typePathKey(f.path)] = true
+			st.fault(fTypeGone)
+			ffs = append(ffs, fault{kind: fTypeGone, path: f.path, expect: []expDiag{f.expect}})
+		}
+		O := types.Object{Attrs: map[string]attr.Value{}, AttrTypes: typ.AttrTypes}
+		var ds diag.Diagnostics
+		if p := safely(func() { ds = re.fn.To(ctx, src, &O) }); p != "" {
+			violate(t, "C06/copy-to/no-panic", "CopyTo panicked: %s\nremoved types: %v\nhistory: %s", p, removedList(fs), strings.Join(h.lines, " ; "))
+		}
+		checkDiags(t, "C06", "copy-to", ffs, ds, h, what)
+		compareWritten(t, looseTree(O), twinTree, "", removed, fs, h)
+	}
+	if rapid.IntRange(0, 1).Draw(t, "mode") == 0 {
+		h.add("RemoveEachType", fmt.Sprintf("%d single faults", len(keys)))
+		for _, k := range keys {
+			run([]typeFault{uniq[k]}, "single removed type")
+		}
+		st.probe("exhaustive-single-type-removals")
+		return
+	}
+	if len(keys) == 0 {
+		return
+	}
+	n := rapid.IntRange(2, 5).Draw(t, "nfaults")
+	var fs []typeFault
+	for i := 0; i < n; i++ {
+		f := uniq[keys[rapid.IntRange(0, len(keys)-1).Draw(t, fmt.Sprintf("site%d", i))]]
+		clash := false
+		for _, g := range fs {
+			if isPrefix(g.path, f.path) || isPrefix(f.path, g.path) {
+				clash = true
+			}
+		}
+		if !clash {
+			fs = append(fs, f)
+		}
+	}
+	h.add("RemoveTypes", fmt.Sprint(removedList(fs)))
+	run(fs, "set of removed types")
 }
